@@ -1,5 +1,5 @@
 """Run one mirsym harness: explore, then replay every distinct counterexample natively."""
-import importlib, json, os, sys, time
+import importlib, json, os, re, sys, time
 
 HERE = os.path.dirname(os.path.abspath(__file__))
 sys.path.insert(0, HERE)
@@ -69,6 +69,13 @@ def main():
                 continue
             if payload is None: continue
             nat += 1
+            if ok and rp.get("differential"):
+                # the native run is a differential test of the real code with real keys, independent of the symbolic path:
+                # its failure is a reproduced violation, not an engine/oracle disagreement
+                what = "native differential of the real code fails: " + re.sub(r"^(dev|release): ", "", note)[:200]
+                if not any(x["what"] == what for x in dist):
+                    dist.append(dict(what=what, model=c.get("model"), trace=c.get("trace"), reproduced=True, replay_note=note, replay=payload, native_runs=1))
+                continue
             selfcheck.append(dict(path=c["what"], disagrees=bool(ok), note=note[:300]))
     wit = hd.get("witnesses", [])
     hit = [w for w in wit if s["outcomes"].get(w, 0) > 0]
